@@ -137,10 +137,10 @@ Section Frame.
       unfold hnode_with. rewrite <- (nsig_frame m Rm). destruct (nsig cs h m) as [sg|] eqn:Es; [|reflexivity].
       destruct (nsig_inR m sg Rm Es) as [Rt Ra]. cbn [bind].
       assert (Et : (match sg_task sg with
-                    | Some t => do r <- hv H cs h look f (m :: st) (VRef t); Ok (TASK_ID :: fst r, snd r)
+                    | Some t => do r <- hv H cs h look f (m :: st) (VRef t); Ok (tmark (m :: st) t (fst r), snd r)
                     | None => Ok ([], O) end)
                  = (match sg_task sg with
-                    | Some t => do r <- hv H cs h' look f (m :: st) (VRef t); Ok (TASK_ID :: fst r, snd r)
+                    | Some t => do r <- hv H cs h' look f (m :: st) (VRef t); Ok (tmark (m :: st) t (fst r), snd r)
                     | None => Ok ([], O) end)).
       { destruct (sg_task sg) as [t|]; [|reflexivity]. rewrite IH; [reflexivity|].
         intros y [<-|[]]. apply Rt. reflexivity. }
@@ -160,10 +160,10 @@ Section Frame.
     - unfold hnode, hnode_with. rewrite <- (nsig_frame m Rm). destruct (nsig cs h m) as [sg|] eqn:Es; [|reflexivity].
       destruct (nsig_inR m sg Rm Es) as [Rt Ra]. cbn [bind].
       assert (Et : (match sg_task sg with
-                    | Some t => do r <- hv H cs h look (S f) (m :: st) (VRef t); Ok (TASK_ID :: fst r, snd r)
+                    | Some t => do r <- hv H cs h look (S f) (m :: st) (VRef t); Ok (tmark (m :: st) t (fst r), snd r)
                     | None => Ok ([], O) end)
                  = (match sg_task sg with
-                    | Some t => do r <- hv H cs h' look (S f) (m :: st) (VRef t); Ok (TASK_ID :: fst r, snd r)
+                    | Some t => do r <- hv H cs h' look (S f) (m :: st) (VRef t); Ok (tmark (m :: st) t (fst r), snd r)
                     | None => Ok ([], O) end)).
       { destruct (sg_task sg) as [t|]; [|reflexivity]. rewrite hv_frame; [reflexivity|].
         intros y [<-|[]]. apply Rt. reflexivity. }
